@@ -2,14 +2,21 @@ package goat
 
 import (
 	"context"
+	"errors"
 	"sync"
 
 	"github.com/avos-io/goat/internal/verifhook"
 )
 
+var errDemuxConnCancelled = errors.New("demux connection cancelled")
+
 type demuxConn struct {
 	r chan *Rpc
 	w chan *Rpc
+	// done is closed by Cancel. The data channels are never closed: Run, the
+	// logical connection's writers and the writer goroutine may be sending on
+	// or receiving from them at that moment.
+	done chan struct{}
 }
 
 // Wraps a Goat Server, demultiplexing IO.
@@ -69,7 +76,13 @@ func (gsd *Demux) Run() {
 		gsd.conns.Unlock()
 
 		verifhook.At("demux.handoff", rpc.GetId())
-		conn.r <- rpc
+		select {
+		case conn.r <- rpc:
+		case <-conn.done:
+			// cancelled between lookup and hand-off: the envelope goes nowhere
+		case <-gsd.ctx.Done():
+			return
+		}
 	}
 }
 
@@ -78,8 +91,7 @@ func (gsd *Demux) Cancel(id string) {
 	defer gsd.conns.Unlock()
 
 	if conn, ok := gsd.conns.value[id]; ok {
-		close(conn.r)
-		close(conn.w)
+		close(conn.done)
 	}
 
 	delete(gsd.conns.value, id)
@@ -87,8 +99,9 @@ func (gsd *Demux) Cancel(id string) {
 
 func (gsd *Demux) newConnLocked(id string) *demuxConn {
 	c := &demuxConn{
-		r: make(chan *Rpc),
-		w: make(chan *Rpc),
+		r:    make(chan *Rpc),
+		w:    make(chan *Rpc),
+		done: make(chan struct{}),
 	}
 
 	go func() {
@@ -96,10 +109,9 @@ func (gsd *Demux) newConnLocked(id string) *demuxConn {
 			select {
 			case <-gsd.ctx.Done():
 				return
-			case rpc, ok := <-c.w:
-				if !ok {
-					return
-				}
+			case <-c.done:
+				return
+			case rpc := <-c.w:
 				err := gsd.rw.Write(gsd.ctx, rpc)
 				if err != nil {
 					return
@@ -110,7 +122,40 @@ func (gsd *Demux) newConnLocked(id string) *demuxConn {
 
 	gsd.conns.value[id] = c
 
-	go gsd.onNewConnection(NewGoatOverChannel(c.r, c.w))
+	go gsd.onNewConnection(&demuxReadWriter{gsd: gsd, c: c})
 
 	return c
+}
+
+// demuxReadWriter is the logical connection handed to onNewConnection. Reads
+// and writes fail once the key is cancelled or the demultiplexer is stopped.
+type demuxReadWriter struct {
+	gsd *Demux
+	c   *demuxConn
+}
+
+func (rw *demuxReadWriter) Read(ctx context.Context) (*Rpc, error) {
+	select {
+	case <-ctx.Done():
+		return nil, ctx.Err()
+	case <-rw.c.done:
+		return nil, errDemuxConnCancelled
+	case <-rw.gsd.ctx.Done():
+		return nil, rw.gsd.ctx.Err()
+	case rpc := <-rw.c.r:
+		return rpc, nil
+	}
+}
+
+func (rw *demuxReadWriter) Write(ctx context.Context, rpc *Rpc) error {
+	select {
+	case <-ctx.Done():
+		return ctx.Err()
+	case <-rw.c.done:
+		return errDemuxConnCancelled
+	case <-rw.gsd.ctx.Done():
+		return rw.gsd.ctx.Err()
+	case rw.c.w <- rpc:
+		return nil
+	}
 }
